@@ -49,9 +49,27 @@ CLAIMS = {
         'to a real System, and TLC validates every recorded request and dispatched event against the relations of MaintTrace.tla '
         '(return value, greedy in-order scan, hooks once, records, cost, exact duration) on the logged pre-state.',
    technique='TLA+ closed spec model-checked with TLC + TLC trace validation of real Maintainer runs'),
+ 'C18': dict(engine='sched', ref='DESIGN.md 6 (C18), 3.3',
+   text='TLC model-checks the closed scheduler specification SchedMC (every timetable of a bounded family with repeated states and '
+        'zero / quarter-unit durations, cyclical, non-cyclical or unspecified, register / unregister calls before the run, between '
+        'runs and from other events at higher and lower priority, every tie-break) against state = timetable state whenever time '
+        'advances, k-th record at the k-th prefix-sum time, actions once per registered object in registration order; the behaviours '
+        'and longer random scripts are executed on the real ActionScheduler + System and TLC validates every recorded call and '
+        'dispatched event against SchedTrace.tla, whose expectations come from the timetable alone and from the registry as the '
+        'public calls define it.',
+   technique='TLA+ closed spec model-checked with TLC + TLC trace validation of real ActionScheduler runs'),
+ 'C19': dict(engine='sensors', ref='DESIGN.md 6 (C19), 3.3',
+   text='TLC model-checks the closed sensor specification SensorsMC (intervals, data capacities, sensing intervals, a probed object '
+        'changing in place, callbacks and the monitoring system added before / between runs and twice) against bounded aligned series, '
+        'k-th periodic measurement at k intervals, first-then-every-(n+1)-th part, stored values never changing afterwards; the '
+        'behaviours and random scripts (failures of the observed processor, non-grid intervals) run on the real PeriodicSensor / '
+        'OutputPartSensor / Cms with a real line, and TLC validates every recorded step against SensorsTrace.tla.',
+   technique='TLA+ closed spec model-checked with TLC + TLC trace validation of real sensor runs'),
 }
 
 ENGINES = {
+ 'sched': dict(name='sched', path='harness/p_sched.py', kind_free_text='Sched.tla / SchedMC.tla / SchedTrace.tla; harness/component.py; driver harness/sched_driver.py'),
+ 'sensors': dict(name='sensors', path='harness/p_sensors.py', kind_free_text='Sensors.tla / SensorsMC.tla / SensorsTrace.tla; harness/component.py; driver harness/sensors_driver.py'),
  'maint': dict(name='maint', path='harness/p_maint.py', kind_free_text='Maint.tla / MaintMC.tla / MaintTrace.tla; generic component pipeline harness/component.py; driver harness/maint_driver.py'),
  'pools': dict(name='pools', path='harness/p_pools.py', kind_free_text='Pools.tla / PoolsMC.tla (closed, exhaustive + simulate) / PoolsTrace.tla (trace validation); driver harness/pools_driver.py'),
  'kernel': dict(name='kernel', path='harness/p_kernel.py', kind_free_text='Kernel.tla / KernelMC.tla (closed, exhaustive + simulate) / KernelTrace.tla (trace validation); driver harness/kernel_driver.py'),
